@@ -26,7 +26,7 @@
 static int thorough;
 
 typedef struct { const char *name; int kind; wcfg_t cfg; int resumed; int expect_complete; } scen_t;
-enum { K_LOADKEYS_RSA = 0, K_LOADKEYS_EC, K_SESSION };
+enum { K_LOADKEYS_RSA = 0, K_LOADKEYS_EC, K_SESSION, K_LOADKEYS_PEMCAS };
 static scen_t scens[24];
 static int nscen;
 
@@ -53,7 +53,7 @@ static int  mode;                  /* 0 single, 1 pair (second = k + d), 2 fail-
 static int  pair_d;
 static char errpath[256];
 
-typedef struct { int complete[2]; int any_api_error; long live_after; int crashed; } sres_t;
+typedef struct { int complete[2]; int any_api_error; long live_after; int crashed; int anchors, certs, unparsed; } sres_t;
 
 static void record_child(pid_t pid, int rfd, long k);
 
@@ -102,22 +102,63 @@ static int alloc_hook(long k)
     return 0;
 }
 
+/* a PEM bundle of three trust anchors, built from the DER arrays of testkeys (static storage: no allocation) */
+static char pem_cas[12000];
+static int pem_cas_len;
+static void pem_add(const unsigned char *der, size_t n)
+{
+    static const char b64[] = "ABCDEFGHIJKLMNOPQRSTUVWXYZabcdefghijklmnopqrstuvwxyz0123456789+/";
+    size_t i;
+    int col = 0, o = pem_cas_len;
+    o += sprintf(pem_cas + o, "-----BEGIN CERTIFICATE-----\n");
+    for (i = 0; i < n; i += 3)
+    {
+        unsigned v = (unsigned) der[i] << 16 | (i + 1 < n ? (unsigned) der[i + 1] << 8 : 0) | (i + 2 < n ? der[i + 2] : 0);
+        pem_cas[o++] = b64[(v >> 18) & 63];
+        pem_cas[o++] = b64[(v >> 12) & 63];
+        pem_cas[o++] = i + 1 < n ? b64[(v >> 6) & 63] : '=';
+        pem_cas[o++] = i + 2 < n ? b64[v & 63] : '=';
+        col += 4;
+        if (col >= 64)
+        {
+            pem_cas[o++] = '\n';
+            col = 0;
+        }
+    }
+    if (col)
+    {
+        pem_cas[o++] = '\n';
+    }
+    o += sprintf(pem_cas + o, "-----END CERTIFICATE-----\n");
+    pem_cas_len = o;
+}
+
 /* --------------------------------------------------------------- scenarios */
 static void run_scenario(int si, sres_t *out)
 {
     const scen_t *S = &scens[si];
     memset(out, 0, sizeof(*out));
     env_live_reset();
-    if (S->kind == K_LOADKEYS_RSA || S->kind == K_LOADKEYS_EC)
+    if (S->kind == K_LOADKEYS_RSA || S->kind == K_LOADKEYS_EC || S->kind == K_LOADKEYS_PEMCAS)
     {
         sslKeys_t *k = NULL;
         int rc;
+        if (S->kind == K_LOADKEYS_PEMCAS && pem_cas_len == 0)
+        {
+            pem_add(RSA2048CA, sizeof(RSA2048CA));
+            pem_add(EC256CA, sizeof(EC256CA));
+            pem_add(RSA2048CA, sizeof(RSA2048CA));
+        }
         world_open();
         env_track(1);
         rc = matrixSslNewKeys(&k, NULL);
         if (rc >= 0 && k)
         {
-            if (S->kind == K_LOADKEYS_RSA)
+            if (S->kind == K_LOADKEYS_PEMCAS)
+            {
+                rc = matrixSslLoadKeysMem(k, NULL, 0, NULL, 0, (const unsigned char *) pem_cas, pem_cas_len, NULL);
+            }
+            else if (S->kind == K_LOADKEYS_RSA)
             {
                 rc = matrixSslLoadRsaKeysMem(k, RSA2048, sizeof(RSA2048), RSA2048KEY, sizeof(RSA2048KEY), RSA2048CA, sizeof(RSA2048CA));
             }
@@ -128,6 +169,22 @@ static void run_scenario(int si, sres_t *out)
             if (rc < 0)
             {
                 out->any_api_error = 1;
+            }
+            else
+            {
+                /* what a load that reported success left in the key set: trust anchors, identity certificates, and how many
+                   of them the parser did not finish */
+                psX509Cert_t *x;
+                for (x = k->CAcerts; x; x = x->next)
+                {
+                    out->anchors++;
+                    if (x->parseStatus != PS_X509_PARSE_SUCCESS) out->unparsed++;
+                }
+                for (x = k->identity ? k->identity->cert : NULL; x; x = x->next)
+                {
+                    out->certs++;
+                    if (x->parseStatus != PS_X509_PARSE_SUCCESS) out->unparsed++;
+                }
             }
             matrixSslDeleteKeys(k);
         }
@@ -276,6 +333,10 @@ static void child_finish(const sres_t *o)
     {
         sym = "handshake-completed-with-invalid-peer-credential";
     }
+    else if (S->kind != K_SESSION && !o->any_api_error && (o->anchors != baseline[cur_scen].anchors || o->certs != baseline[cur_scen].certs || o->unparsed != baseline[cur_scen].unparsed))
+    {
+        sym = "key-load-reported-success-without-everything-loaded";
+    }
     else if (o->live_after != 0)
     {
         void *sites[4];
@@ -416,6 +477,8 @@ int main(int argc, char **argv)
     add_scen("tls13-ecdsa-clientauth", K_SESSION, V_TLS13, KX_13_ECDSA, 0, 1, 0, 0, 0, 1, 0);
     add_scen("tls13-rsa-resumed", K_SESSION, V_TLS13, KX_13_RSA, 0, 0, 0, 1, 1, 1, 0);
     add_scen("tls11-ecdhe-ecdsa", K_SESSION, V_TLS11, KX_ECDHE_ECDSA, 0, 0, 0, 0, 0, 1, 0);
+    /* (appended: scenario indices are part of replay descriptors) */
+    add_scen("load-pem-bundle-of-3-trust-anchors", K_LOADKEYS_PEMCAS, 0, 0, 0, 0, 0, 0, 0, 0, 1);
 
     if (replay)
     {
@@ -427,6 +490,13 @@ int main(int argc, char **argv)
         {
             fprintf(stderr, "bad descriptor\n");
             return 2;
+        }
+        if (scens[si].kind != K_SESSION)
+        {
+            /* the fault-free content of the key set, as in the enumeration */
+            env_reset(0);
+            env_alloc_hook = NULL;
+            run_scenario(si, &baseline[si]);
         }
         /* in-process: fail directly, no fork */
         cur_scen = si; mode = m; pair_d = d;
@@ -446,6 +516,11 @@ int main(int argc, char **argv)
             {
                 r.violation = 1;
                 snprintf(r.key, sizeof(r.key), "%s|handshake-completed-with-invalid-peer-credential", S->name);
+            }
+            else if (S->kind != K_SESSION && !o.any_api_error && (o.anchors != baseline[si].anchors || o.certs != baseline[si].certs || o.unparsed != baseline[si].unparsed))
+            {
+                r.violation = 1;
+                snprintf(r.key, sizeof(r.key), "%s|key-load-reported-success-without-everything-loaded", S->name);
             }
             else if (o.live_after != 0)
             {
